@@ -3,15 +3,23 @@
 The Lean side (`Props/C07.lean`) is list algebra over a model where the batch is `List.map`; the
 substance is here, on the real code (metamorphic runs on fitted models and tiny cohorts):
 
-  (i)   the observed values of every *other* individual are replaced -> the kept individuals' nll terms,
-        sampler proposals / decisions / new rows (same recorded draws by position) and personalised
-        parameters (scipy_minimize, mode_posterior, mean_posterior; same seed) are bit-identical;
+  (i)   the observed values of every *other* individual are replaced (values of [0, 1], values far out of range, values going
+        missing, one of them left without any observed value; in half of the state-level cases their latent values and proposal
+        std as well, pushed several prior standard deviations away) -> the kept individuals' nll terms, sampler proposals / decisions / new rows (same recorded draws by
+        position) and personalised parameters (scipy_minimize, mode_posterior, mean_posterior; same seed) are bit-identical;
   (ii)  an individual evaluated alone instead of in the batch: terms within a rounding envelope, proposal
-        bit-identical (own std, own draws), decision identical unless |u - alpha| is inside the envelope;
+        bit-identical (own std, own draws), decision identical unless |u - alpha| is inside the envelope; scipy_minimize (one state
+        and one single-individual dataset per subject): the subject alone, under another identifier, with the draws of its position,
+        gets bit-identical parameters (a kept individual on the original data, one of the others on its replaced data);
   (iii) re-ordering the individuals (draws re-ordered with them) permutes every per-individual output
         bit for bit; totals agree within summation rounding and are the sums of the per-individual terms;
-  (iv)  scipy_minimize with n_jobs = 1 and n_jobs = 2 (fresh loky workers, other PYTHONHASHSEED) returns
-        identical IndividualParameters.
+  (iv)  scipy_minimize with n_jobs = 1 and n_jobs = 2, 3, 5 (fresh loky workers, other PYTHONHASHSEED; 5 = more workers than
+        individuals) returns identical IndividualParameters.
+  Cohorts: 2-5 individuals drawn in random listing order from the test data; in two personalisation cases out of three the
+  identifiers are replaced by labels whose lexicographic, numeric and listing orders differ ('2', '10', '100', 'A', 'a', 'B2');
+  latent values in the usual range or several prior standard deviations wide; every model kind, the mixture model included;
+  `model.personalize` is given a Data, a Dataset, the pandas table or an AlgorithmSettings object, on a freshly loaded model or on
+  one model object reused by every call of the case.
   (v)   recorded programs (`trace_c07.py`, `Model/Trace.lean`): the torch operations the real code executes for every
         individual-level variable of the State and for steps of `IndividualGibbsSampler.sample` (an ordinary one and the one in
         which the per-individual std adaptation fires; std and acceptance history are inputs and outputs) are recorded on every
@@ -62,8 +70,14 @@ LEAN = dict(
     ],
     assumptions=[
         "perturbations change observed values (and event time / indicator) of other individuals, never their visit ages "
-        "(padding and masks are C06's subject)",
-        "alone-vs-batch envelope for a per-individual term: 4*(n_obs+8)*2^-23*(|term| + n_obs); totals: (n+4)*2^-23*sum|terms|",
+        "(padding and masks are C06's subject); values that go missing leave at least one observed feature per visit",
+        "alone-vs-cohort for scipy_minimize is bit for bit (one state and one single-individual dataset per subject, as documented in the "
+        "anchored code); for the batched MCMC personalisations it is not compared (rounding of vectorised reductions makes chains diverge)",
+        "non-finite per-individual terms (legitimate float overflow for latent values several standard deviations away) must match "
+        "position by position; totals are then not compared with the sum of the terms",
+        "alone-vs-batch envelope for a per-individual term: 4*(n_obs+8)*2^-23*(|term| + n_obs); totals: (n+4)*2^-23*sum|terms|; decisions alone vs "
+        "in batch / re-ordered: the envelope of the exponent is 8*(n_obs+8)*2^-23*(|A| + |dA| + n_obs + |dR|) (the proposed attachment is rounded "
+        "relative to |A + dA|)",
         "position-indexed draws: in re-ordered runs the recorded draws are re-ordered with the individuals",
         "re-ordered batch: per-individual terms within the alone-vs-batch envelope (vectorised reductions make the last bits depend on "
         "the position in the batch), proposals bit for bit, decisions unless |u - alpha| is inside that envelope, MCMC-personalised "
@@ -111,14 +125,17 @@ def base_frame(env, name):
 
 
 def load_model(env, name):
-    return env.BaseModel.load(str(core.REPO / s3.D_ROOT / "model_parameters" / "from_fit" / f"{name}.json"))
+    sub = name if "/" in name else f"from_fit/{name}"
+    return env.BaseModel.load(str(core.REPO / s3.D_ROOT / "model_parameters" / f"{sub}.json"))
 
 
-def to_data(env, name, df):
+def to_data(env, name, df, keep_empty=False):
+    """`keep_empty`: visits without any observed value are kept (reader option drop_full_nan=False)."""
+    kw = {"drop_full_nan": False} if keep_empty else {}
     if kind_of(name).startswith("joint"):
         # as scipy_minimize does for its single-individual datasets: the number of event types comes from the model
-        return env.Data.from_dataframe(df, data_type="joint", factory_kws={"nb_events": 1})
-    return env.Data.from_dataframe(df)
+        return env.Data.from_dataframe(df, data_type="joint", factory_kws={"nb_events": 1}, **kw)
+    return env.Data.from_dataframe(df, **kw)
 
 
 def cohort_frame(env, df, ids):
@@ -129,19 +146,34 @@ def feature_cols(df):
     return [c for c in df.columns if c not in ("ID", "TIME", "EVENT_TIME", "EVENT_BOOL")]
 
 
-def perturb_others(env, name, df, keep, seed):
-    """Replace the observed values of every individual not in `keep` (visit ages untouched)."""
+def perturb_others(env, name, df, keep, seed, style="plain"):
+    """Replace the observed values of every individual not in `keep` (visit ages untouched).  `style`: `plain` values of [0, 1]
+    (0/1 for binary outcomes); `extreme`: values far outside the usual range (x1000, negative; binary outcomes stay 0/1);
+    `holes`: as `plain`, and values of the others go missing (multivariate kinds: at most one feature per visit, so that no visit
+    disappears and the padding stays what it was)."""
     rng = random.Random(f"perturb:{seed}")
     df = df.copy()
     binary = kind_of(name) == "binary"
-    for c in feature_cols(df):
+    cols = feature_cols(df)
+    for c in cols:
         vals = []
         for i, v in zip(df["ID"], df[c]):
             if i in keep:
                 vals.append(v)
+            elif binary:
+                vals.append(float(rng.randrange(2)))
+            elif style == "extreme":
+                vals.append(rng.choice([-1.0, 1.0]) * rng.choice([1.0, 30.0, 1000.0]) * round(rng.random(), 4))
             else:
-                vals.append(float(rng.randrange(2)) if binary else round(rng.random(), 4))
+                vals.append(round(rng.random(), 4))
         df[c] = vals
+    if style == "holes" and len(cols) >= 2:
+        r2 = random.Random(f"perturb-holes:{seed}")
+        for c in cols:
+            df[c] = df[c].astype(float)
+        for k, i in enumerate(df["ID"]):
+            if i not in keep and r2.random() < 0.4:
+                df.loc[df.index[k], r2.choice(cols)] = float("nan")
     if "EVENT_TIME" in df.columns:
         shift = {i: (rng.uniform(0.1, 3.0), rng.randrange(2)) for i in dict.fromkeys(df["ID"])}
         df["EVENT_TIME"] = [t if i in keep else t + shift[i][0] for i, t in zip(df["ID"], df["EVENT_TIME"])]
@@ -149,13 +181,23 @@ def perturb_others(env, name, df, keep, seed):
     return df
 
 
-def latents_for(env, model, df, ids, seed):
-    """Deterministic per-individual latent values (they follow the individual, not its position)."""
+LAT_RANGES = {"usual": {"tau": (-3.0, 4.0), "xi": (-0.6, 0.6), "other": (-1.2, 1.2)},
+              # several prior standard deviations (fast / slow progressors, onset decades away from the first visit)
+              "wide": {"tau": (-15.0, 20.0), "xi": (-2.5, 2.5), "other": (-3.0, 3.0)},
+              "extreme": {"tau": (-40.0, 40.0), "xi": (-4.0, 4.0), "other": (-6.0, 6.0)}}
+
+
+def latents_for(env, model, df, ids, seed, ranges="usual", replaced=None):
+    """Deterministic per-individual latent values (they follow the individual, not its position).  `replaced` = (ids, seed2,
+    ranges2): these individuals get other values (drawn from `ranges2` with `seed2`)."""
     dag = model.state.dag
     ind_vars = list(dag.sorted_variables_by_type[env.IndividualLatentVariable])
     out = {}
     for i in ids:
-        r = random.Random(f"lat:{seed}:{i}")
+        sd, rg = seed, LAT_RANGES[ranges]
+        if replaced is not None and i in replaced[0]:
+            sd, rg = replaced[1], LAT_RANGES[replaced[2]]
+        r = random.Random(f"lat:{sd}:{i}")
         t0 = float(df[df["ID"] == i]["TIME"].min())
         d = {}
         for v in sorted(ind_vars):
@@ -164,11 +206,11 @@ def latents_for(env, model, df, ids, seed):
             for s in shape:
                 k *= s
             if v == "tau":
-                d[v] = [t0 + r.uniform(-3.0, 4.0) for _ in range(k)]
+                d[v] = [t0 + r.uniform(*rg["tau"]) for _ in range(k)]
             elif v == "xi":
-                d[v] = [r.uniform(-0.6, 0.6) for _ in range(k)]
+                d[v] = [r.uniform(*rg["xi"]) for _ in range(k)]
             else:
-                d[v] = [r.uniform(-1.2, 1.2) for _ in range(k)]
+                d[v] = [r.uniform(*rg["other"]) for _ in range(k)]
         out[i] = d
     return out, sorted(ind_vars)
 
@@ -258,7 +300,8 @@ def sampler_sweep(env, name, df, ids, lat, ind_vars, std_by_id, tinv, tape=None,
     torch = env.torch
     model = load_model(env, name)
     ds = env.Dataset(to_data(env, name, cohort_frame(env, df, ids)))
-    algo = env.algorithm_factory(env.AlgorithmSettings("mean_posterior", n_iter=10, seed=0, progress_bar=False))
+    # (the mixture model is not supported by the sampling-based personalisation algorithms: its samplers come from the fit algorithm)
+    algo = env.algorithm_factory(env.AlgorithmSettings("mcmc_saem" if "/" in name else "mean_posterior", n_iter=10, seed=0, progress_bar=False))
     state = algo._initialize_algo(model, ds)
     with state.auto_fork(None):
         for v in ind_vars:
@@ -296,12 +339,23 @@ def ip_dict(ip):
             for k, d in ip._individual_parameters.items()}
 
 
-def personalize(env, name, df, ids, algo_name, seed, tape=None, transform=None, **kw):
-    model = load_model(env, name)
-    data = to_data(env, name, cohort_frame(env, df, ids))
+def personalize(env, name, df, ids, algo_name, seed, tape=None, transform=None, model=None, container="data", keep_empty=False, **kw):
+    """`model`: an already used model object (default: freshly loaded); `container`: what is handed to `model.personalize` -
+    `data` (Data), `dataset` (Dataset), `frame` (the pandas table itself; not for the joint layout, which the table reader must be
+    told about), `settings` (Data + an AlgorithmSettings object instead of keywords)."""
+    model = load_model(env, name) if model is None else model
+    frame = cohort_frame(env, df, ids)
+    data = to_data(env, name, frame, keep_empty)
+    if container == "dataset":
+        data = env.Dataset(data)
+    elif container == "frame" and not kind_of(name).startswith("joint") and not keep_empty:
+        data = frame
     with Tape(env, tape, transform) as tp:
         with core.quiet():
-            ip = model.personalize(data, algo_name, seed=seed, progress_bar=False, **kw)
+            if container == "settings":
+                ip = model.personalize(data, algorithm_settings=env.AlgorithmSettings(algo_name, seed=seed, progress_bar=False, **kw))
+            else:
+                ip = model.personalize(data, algo_name, seed=seed, progress_bar=False, **kw)
     return ip_dict(ip), tp
 
 
@@ -329,6 +383,10 @@ def max_rel_diff(a, b):
 
 
 # ----------------------------------------------------------------------------------------------
+def same_or_close(a, b, tol):
+    return a == b or (math.isnan(a) and math.isnan(b)) or abs(a - b) <= tol
+
+
 def case_terms_and_sampler(chk, env, name, seed, lines, expect):
     rng = random.Random(f"C07:ts:{name}:{seed}")
     torch = env.torch
@@ -336,16 +394,31 @@ def case_terms_and_sampler(chk, env, name, seed, lines, expect):
     try:
         df = base_frame(env, name)
         all_ids = list(dict.fromkeys(df["ID"]))
-        n = rng.choice([3, 4, 5])
+        n = rng.choice([2, 3, 4, 5])
         ids = rng.sample(all_ids, n)
-        keep = rng.sample(ids, rng.choice([1, 2]))
-        case.update(ids=ids, keep=keep)
+        keep = rng.sample(ids, 1 if n == 2 else rng.choice([1, 2]))
+        others = [i for i in ids if i not in keep]
+        # what is replaced for the other individuals: their observed values (ordinary / far out of range / going missing) and, in
+        # half of the cases, their latent values and proposal std as well (pushed several prior standard deviations away)
+        ranges = rng.choice(["usual", "usual", "wide"])
+        pstyle = rng.choice(["plain", "plain", "extreme", "holes"])
+        plat = rng.random() < 0.5
+        case.update(ids=ids, keep=keep, latent_ranges=ranges, others_values=pstyle, others_latents_replaced=plat)
         model = load_model(env, name)
-        lat, ind_vars = latents_for(env, model, df, ids, seed)
+        lat, ind_vars = latents_for(env, model, df, ids, seed, ranges)
+        latp = latents_for(env, model, df, ids, seed, ranges, replaced=(others, seed + 1, "extreme"))[0] if plat else lat
         with core.quiet():
             base = eval_terms(env, name, df, ids, lat, ind_vars)
-            dfp = perturb_others(env, name, df, set(keep), seed)
-            pert = eval_terms(env, name, dfp, ids, lat, ind_vars)
+            dfp = perturb_others(env, name, df, set(keep), seed, pstyle)
+            try:
+                pert = eval_terms(env, name, dfp, ids, latp, ind_vars)
+            except Exception:  # noqa
+                if not plat:
+                    raise
+                # the model refuses to evaluate the extreme latent values given to the others: data-only replacement
+                chk.tag("others_extreme_latents", "refused")
+                plat, latp = False, lat
+                pert = eval_terms(env, name, dfp, ids, latp, ind_vars)
             perm = list(range(n))
             while perm == list(range(n)):
                 rng.shuffle(perm)
@@ -358,19 +431,21 @@ def case_terms_and_sampler(chk, env, name, seed, lines, expect):
         return
     fails = []
     per_ind_keys = ["A_ind", "Rsum_ind"] + [f"R_{v}_ind" for v in ind_vars]
-    # shapes
+    # shapes: individuals on the first axis (models with clusters: one regularity per cluster on the second)
     for k in per_ind_keys:
-        if tuple(base[k].shape) != (n,):
+        if base[k].dim() not in (1, 2) or base[k].shape[0] != n:
             fails.append(f"{k} has shape {tuple(base[k].shape)} for {n} individuals")
+    flat = all(base[k].dim() == 1 for k in per_ind_keys)
     if not fails:
-        # (i) other individuals' data changed
+        # (i) other individuals' data (and latent values) changed
         changed_others = False
         for k in per_ind_keys:
             for j, i in enumerate(ids):
                 same = row_bits(env, base[k], j) == row_bits(env, pert[k], j)
                 if i in keep and not same:
-                    fails.append(f"(i) {k}[{i}] changed ({float(base[k][j])!r} -> {float(pert[k][j])!r}) when only the data of "
-                                 f"other individuals {[x for x in ids if x not in keep]} were replaced")
+                    fails.append(f"(i) {k}[{i}] changed ({s3.fl(base[k][j])!r} -> {s3.fl(pert[k][j])!r}) when only the data"
+                                 f"{' and the latent values' if plat else ''} of the other individuals {others} were replaced "
+                                 f"(values: {pstyle})")
                 if i not in keep and not same:
                     changed_others = True
         if not changed_others:
@@ -378,17 +453,24 @@ def case_terms_and_sampler(chk, env, name, seed, lines, expect):
         # (iii) permutation
         for k in per_ind_keys:
             for pos, src in enumerate(perm):
-                a, b_ = float(permd[k][pos]), float(base[k][src])
-                nobs = base["n_obs"][src]
-                tol = 4 * (nobs + 8) * EPS32 * (abs(b_) + nobs)
-                chk.tag("permuted_term_ulps", "0" if a == b_ else ("<=4" if abs(a - b_) <= 4 * EPS32 * abs(b_) else ">4"))
-                if not abs(a - b_) <= tol:
-                    fails.append(f"(iii) {k} of individual {ids[src]} is {b_!r} in order {ids} but {a!r} in order {pids} "
-                                 f"(|diff| {abs(a-b_):.3g} > envelope {tol:.3g})")
+                bad = False
+                for a, b_ in zip(s3.fl(permd[k][pos]), s3.fl(base[k][src])):
+                    nobs = base["n_obs"][src]
+                    tol = 4 * (nobs + 8) * EPS32 * (abs(b_) + nobs)
+                    chk.tag("permuted_term_ulps", "0" if (a == b_ or (a != a and b_ != b_)) else ("<=4" if abs(a - b_) <= 4 * EPS32 * abs(b_) else ">4"))
+                    if not same_or_close(a, b_, tol):
+                        fails.append(f"(iii) {k} of individual {ids[src]} is {b_!r} in order {ids} but {a!r} in order {pids} "
+                                     f"(|diff| {abs(a-b_):.3g} > envelope {tol:.3g})")
+                        bad = True
+                        break
+                if bad:
                     break
         for k in ["A", "Rsum"]:
             ts = s3.fl(base[k + "_ind"])
-            tol = (n + 4) * EPS32 * sum(abs(x) for x in ts) + 1e-30
+            if not all(math.isfinite(x) for x in ts):
+                chk.tag("totals", "non-finite-terms-not-summed")
+                continue
+            tol = (len(ts) + 4) * EPS32 * sum(abs(x) for x in ts) + 1e-30
             for nm, ev in (("base", base), ("permuted", permd)):
                 if abs(float(ev[k].double()) - sum(ts)) > tol:
                     fails.append(f"total {k} ({nm} order) = {float(ev[k])!r} is not the sum of the per-individual terms {sum(ts)!r} (tol {tol:.3g})")
@@ -406,21 +488,23 @@ def case_terms_and_sampler(chk, env, name, seed, lines, expect):
         for i in keep:
             j = ids.index(i)
             for k in per_ind_keys:
-                a, b = float(alone[i][k][0]), float(base[k][j])
-                nobs = base["n_obs"][j]
-                tol = 4 * (nobs + 8) * EPS32 * (abs(b) + nobs)
-                chk.tag("alone_vs_batch_ulps", "0" if a == b else ("<=4" if abs(a - b) <= 4 * EPS32 * abs(b) else ">4"))
-                if not abs(a - b) <= tol:
-                    fails.append(f"(ii) {k} of {i}: alone {a!r} vs in batch {b!r} (|diff| {abs(a-b):.3g} > envelope {tol:.3g})")
+                for a, b in zip(s3.fl(alone[i][k][0]), s3.fl(base[k][j])):
+                    nobs = base["n_obs"][j]
+                    tol = 4 * (nobs + 8) * EPS32 * (abs(b) + nobs)
+                    chk.tag("alone_vs_batch_ulps", "0" if (a == b or (a != a and b != b)) else ("<=4" if abs(a - b) <= 4 * EPS32 * abs(b) else ">4"))
+                    if not same_or_close(a, b, tol):
+                        fails.append(f"(ii) {k} of {i}: alone {a!r} vs in batch {b!r} (|diff| {abs(a-b):.3g} > envelope {tol:.3g})")
     # model lines: totals, permutation, sum of terms
-    if not fails:
+    finite = all(math.isfinite(x) for k in per_ind_keys for x in s3.fl(base[k]))
+    if not fails and finite:
         for k in ["A", "Rsum"]:
             ts = s3.fl(base[k + "_ind"])
             lines.append(f"total t={fmt_list(ts, fmt_float)}")
-            expect.append(("total", case, {"impl": float(base[k].double()), "tol": (n + 4) * EPS32 * sum(abs(x) for x in ts) + 1e-30, "what": k}))
-            lines.append(f"perm p={fmt_list(perm)} t={fmt_list(ts, fmt_float)}")
-            expect.append(("perm", case, {"impl": s3.fl(permd[k + '_ind']), "what": k,
-                                          "tol": [4 * (base["n_obs"][src] + 8) * EPS32 * (abs(ts[src]) + base["n_obs"][src]) for src in perm]}))
+            expect.append(("total", case, {"impl": float(base[k].double()), "tol": (len(ts) + 4) * EPS32 * sum(abs(x) for x in ts) + 1e-30, "what": k}))
+            if base[k + "_ind"].dim() == 1:
+                lines.append(f"perm p={fmt_list(perm)} t={fmt_list(ts, fmt_float)}")
+                expect.append(("perm", case, {"impl": s3.fl(permd[k + '_ind']), "what": k,
+                                              "tol": [4 * (base["n_obs"][src] + 8) * EPS32 * (abs(ts[src]) + base["n_obs"][src]) for src in perm]}))
         if len(ind_vars) >= 2:
             a, b = s3.fl(base[f"R_{ind_vars[0]}_ind"]), s3.fl(base[f"R_{ind_vars[1]}_ind"])
             lines.append(f"add a={fmt_list(a, fmt_float)} b={fmt_list(b, fmt_float)}")
@@ -429,7 +513,8 @@ def case_terms_and_sampler(chk, env, name, seed, lines, expect):
     for f in fails[:3]:
         chk.impl_failure(case, f)
     chk.case(("ts", name, seed), nontrivial=True, sample=dict(case, perm=perm) if len(chk.samples) < 2 else None,
-             tags={"kind": "terms", "model": name, "n": n, "outcome": "ok" if not fails else "fail"})
+             tags={"kind": "terms", "model": name, "n": n, "outcome": "ok" if not fails else "fail",
+                   "latent_ranges": ranges, "others_values": pstyle, "others_latents_replaced": plat})
 
     # ---------------- sampler step
     scase = dict(case, kind="sampler-step")
@@ -437,13 +522,23 @@ def case_terms_and_sampler(chk, env, name, seed, lines, expect):
     scase["tinv"] = tinv
     std_by_id = {i: {v: math.exp(random.Random(f"std:{seed}:{i}:{v}").uniform(-2.0, 0.5)) * (3.0 if v == "tau" else 1.0)
                      for v in ind_vars} for i in all_ids}
+    # the others' proposal std replaced as well (two decades around the usual one) when their latent values are
+    stdp = std_by_id if not plat else {i: (std_by_id[i] if i in keep else
+                                           {v: std_by_id[i][v] * math.exp(random.Random(f"stdp:{seed}:{i}:{v}").uniform(-2.3, 2.3)) for v in ind_vars})
+                                       for i in all_ids}
     sf = []
     try:
         with core.quiet():
             torch.manual_seed(seed)
             b = sampler_sweep(env, name, df, ids, lat, ind_vars, std_by_id, tinv)
             tape = {v: b[v]["rec"] for v in ind_vars}
-            p = sampler_sweep(env, name, dfp, ids, lat, ind_vars, std_by_id, tinv, tape, lambda k, tp: tp[k])
+            try:
+                p = sampler_sweep(env, name, dfp, ids, latp, ind_vars, stdp, tinv, tape, lambda k, tp: tp[k])
+            except Exception:  # noqa
+                if not plat:
+                    raise
+                chk.tag("others_extreme_latents", "refused-in-sampler-step")
+                p = sampler_sweep(env, name, dfp, ids, lat, ind_vars, std_by_id, tinv, tape, lambda k, tp: tp[k])
             idx = torch.tensor(perm)
             q = sampler_sweep(env, name, df, pids, lat, ind_vars, std_by_id, tinv, tape,
                               lambda k, tp: tp[k][idx] if tp[k].dim() >= 1 and tp[k].shape[0] == n else tp[k])
@@ -470,9 +565,11 @@ def case_terms_and_sampler(chk, env, name, seed, lines, expect):
             if i in keep:
                 for fld in ("prop", "final"):
                     if row_bits(env, b[v][fld], j) != row_bits(env, p[v][fld], j):
-                        sf.append(f"(i) {v}: {fld} row of {i} changed when only other individuals' data were replaced (same draws by position)")
+                        sf.append(f"(i) {v}: {fld} row of {i} changed when only other individuals' data{' / latent values / proposal std' if plat else ''} "
+                                  f"were replaced (same draws by position)")
                 if bool(b[v]["acc"][j] != p[v]["acc"][j]):
-                    sf.append(f"(i) {v}: decision of {i} flipped when only other individuals' data were replaced (same draws by position)")
+                    sf.append(f"(i) {v}: decision of {i} flipped when only other individuals' data{' / latent values / proposal std' if plat else ''} "
+                              f"were replaced (same draws by position)")
         for pos, src in enumerate(perm):
             if row_bits(env, q[v]["cur"], pos) != row_bits(env, b[v]["cur"], src):
                 chk.tag("permuted_sampler", "diverged-after-ambiguous")
@@ -486,7 +583,7 @@ def case_terms_and_sampler(chk, env, name, seed, lines, expect):
                 continue
             aa = s3.alpha64(dA, dR, tinv)
             nobs = base["n_obs"][src]
-            env_d = 8 * (nobs + 8) * EPS32 * (abs(float(b[v]["A_ind"][src])) + nobs + abs(dR))
+            env_d = 8 * (nobs + 8) * EPS32 * (abs(float(b[v]["A_ind"][src])) + abs(dA) + nobs + abs(dR))
             amb = (not math.isinf(aa)) and abs(u - aa) <= aa * (math.expm1(env_d) if env_d < 50 else float("inf")) + s3.band(aa, dA, dR, tinv)
             chk.tag("permuted_sampler", "ambiguous" if amb else "compared")
             if not amb:
@@ -514,7 +611,7 @@ def case_terms_and_sampler(chk, env, name, seed, lines, expect):
             aa = s3.alpha64(dA, dR, tinv)
             # rounding envelope of dA between alone and batch evaluations
             nobs = base["n_obs"][j]
-            env_d = 8 * (nobs + 8) * EPS32 * (abs(float(b[v]["A_ind"][j])) + nobs + abs(dR))
+            env_d = 8 * (nobs + 8) * EPS32 * (abs(float(b[v]["A_ind"][j])) + abs(dA) + nobs + abs(dR))
             amb = (not math.isinf(aa)) and abs(u - aa) <= aa * (math.expm1(env_d) if env_d < 50 else float("inf")) + s3.band(aa, dA, dR, tinv)
             if amb:
                 chk.tag("alone_sampler", "ambiguous")
@@ -535,8 +632,8 @@ def case_terms_and_sampler(chk, env, name, seed, lines, expect):
                 skip = []
                 for j in range(n):
                     e, tag = s3.judge(float(rr["u"][j]), "rec", 0.0, rr["dA"][j], rr["dR"][j], tinv)
-                    skip.append(e is None)
-                    n_dec += 0 if e is None else 1
+                    skip.append(e is None or tag == "inf")
+                    n_dec += 0 if (e is None or tag == "inf") else 1
                 safe = lambda xs: [0.0 if not math.isfinite(x) else x for x in xs]
                 lines.append(
                     f"ind dt={dt} tinv={fmt_float(tinv)} d={d} cur={fmt_list2([s3.fl(rr['cur'][j]) for j in range(n)], fmt_float)} "
@@ -550,36 +647,75 @@ def case_terms_and_sampler(chk, env, name, seed, lines, expect):
                                                                 "outcome": "ok" if not sf else "fail"})
 
 
-def case_personalize(chk, env, name, seed, algos):
+RELABELS = ["2", "10", "1", "9", "100", "21", "b", "A", "a", "B2"]
+CONTAINERS = ["data", "dataset", "frame", "settings"]
+
+
+def case_personalize(chk, env, name, seed, algos, full=True):
     rng = random.Random(f"C07:p:{name}:{seed}")
     torch = env.torch
     df = base_frame(env, name)
     all_ids = list(dict.fromkeys(df["ID"]))
-    n = rng.choice([3, 4])
+    n = rng.choice([2, 3, 4])
     ids = rng.sample(all_ids, n)
-    keep = rng.sample(ids, rng.choice([1, 2]))
+    keep = rng.sample(ids, 1 if n == 2 else rng.choice([1, 2]))
     ids = [i for i in ids if i not in keep] + [i for i in ids if i in keep]     # the kept individuals come after the others
-    dfp = perturb_others(env, name, df, set(keep), seed)
+    relabel = rng.random() < 0.67
+    if relabel:
+        # identifiers whose lexicographic, numeric and listing orders all differ, of different lengths and letter cases
+        # (always one with an upper-case letter)
+        labels = [rng.choice(["A", "B2"])] + rng.sample([x for x in RELABELS if x not in ("A", "B2")], n - 1)
+        rng.shuffle(labels)
+        lab = dict(zip(ids, labels))
+        df = df[df["ID"].isin(ids)].copy()
+        df["ID"] = [lab[i] for i in df["ID"]]
+        ids, keep = [lab[i] for i in ids], [lab[i] for i in keep]
+    pstyle = rng.choice(["plain", "plain", "extreme", "holes"])
+    dfp = perturb_others(env, name, df, set(keep), seed, pstyle)
     # the other individuals reduced to their first visit only (another way of changing what is observed for them)
     first_rows = df.groupby("ID", sort=False).head(1).index
     dfs = df[df["ID"].isin(keep) | df.index.isin(first_rows)]
+    # the first of the other individuals without any observed value (every visit kept, every value missing)
+    dfb = df.copy()
+    for c in feature_cols(dfb):
+        dfb[c] = dfb[c].astype(float)
+        dfb.loc[dfb["ID"] == ids[0], c] = float("nan")
+    # ... and the same on top of the replaced values (used for the budgeted optimiser configuration)
+    dfpb = dfp.copy()
+    for c in feature_cols(dfpb):
+        dfpb[c] = dfpb[c].astype(float)
+        dfpb.loc[dfpb["ID"] == ids[0], c] = float("nan")
     perm = list(range(n))
     while perm == list(range(n)):
         rng.shuffle(perm)
     pids = [ids[k] for k in perm]
+    # one model object for every call of the case (what a session does), or a freshly loaded one per call
+    shared = load_model(env, name) if rng.random() < 0.5 else None
     for algo_name, kw in algos:
-        case = {"kind": "personalize", "model": name, "seed": seed, "algo": algo_name, "kw": kw, "ids": ids, "keep": keep, "perm": perm}
+        conts = [rng.choice(CONTAINERS) for _ in range(3)]
+        case = {"kind": "personalize", "model": name, "seed": seed, "algo": algo_name, "kw": kw, "ids": ids, "keep": keep, "perm": perm,
+                "relabelled": relabel, "others_values": pstyle, "containers": conts, "model_reused": shared is not None}
         fails = []
         try:
-            base, tp = personalize(env, name, df, ids, algo_name, seed, **kw)
-            pert, _ = personalize(env, name, dfp, ids, algo_name, seed, **kw)
+            base, tp = personalize(env, name, df, ids, algo_name, seed, model=shared, **kw)
+            budgeted = "custom_scipy_minimize_params" in kw
+            dfq = dfpb if budgeted else dfp       # budgeted optimiser: the first of the others has no observed value at all
+            pert, _ = personalize(env, name, dfq, ids, algo_name, seed, model=shared, container=conts[0], keep_empty=budgeted, **kw)
             single = None
             if algo_name == "scipy_minimize":
                 try:
-                    single, _ = personalize(env, name, dfs, ids, algo_name, seed, **kw)
+                    single, _ = personalize(env, name, dfs, ids, algo_name, seed, model=shared, container=conts[1], **kw)
                 except Exception:  # noqa  (a one-visit cohort member may be refused by the data layer for some kinds: skip)
                     single = None
+            blank = None
+            if full:
+                try:
+                    blank, _ = personalize(env, name, dfb, ids, algo_name, seed, model=shared, container=conts[1], keep_empty=True, **kw)
+                except Exception as e:  # noqa  (a subject without any value may be refused for some kinds: counted)
+                    chk.tag("blank_subject", f"refused:{s3.err_class(env, e)}")
+                    blank = None
             tape = tp.rec
+            m = 0
             if not tape:
                 tape, tr = None, None
             elif algo_name == "scipy_minimize":
@@ -590,7 +726,23 @@ def case_personalize(chk, env, name, seed, algos):
             else:
                 idx = torch.tensor(perm)
                 tr = lambda k, t: t[k][idx] if t[k].dim() >= 1 and t[k].shape[0] == n else t[k]
-            permd, tq = personalize(env, name, df, pids, algo_name, seed, tape=tape, transform=tr, **kw)
+            permd, tq = personalize(env, name, df, pids, algo_name, seed, tape=tape, transform=tr, model=shared, container=conts[2], **kw)
+            # (ii) scipy_minimize works on one state and one single-individual dataset per subject: a subject alone, under another
+            # identifier, with the draws of its position, must get exactly the parameters it gets inside the cohort - one kept
+            # individual on the original data, one of the others on its replaced data
+            alone = []
+            if algo_name == "scipy_minimize":
+                pairs = [(keep[0], df, base), (ids[0], dfq, pert)]
+                if not full and not budgeted:     # quick tier: the budgeted optimiser configuration only
+                    pairs = []
+                for who, frame, ref in pairs:
+                    j = ids.index(who)
+                    fr = frame[frame["ID"] == who].copy()
+                    fr["ID"] = who + "~a"
+                    tra = (lambda k, t, j=j: t[j * m + k]) if tape else None
+                    got, ta = personalize(env, name, fr, [who + "~a"], algo_name, seed, tape=tape if tape else None, transform=tra,
+                                          model=shared, keep_empty=budgeted, **kw)
+                    alone.append((who, got.get(who + "~a"), ref.get(who), ta.mismatch, frame is dfq))
         except Exception as e:  # noqa
             chk.impl_failure(case, f"personalize failed: {s3.err_class(env, e)}: {str(e)[:200]}")
             chk.case(("p", name, seed, algo_name, json.dumps(kw, sort_keys=True)), nontrivial=False, tags={"kind": "personalize", "outcome": "error"})
@@ -605,14 +757,33 @@ def case_personalize(chk, env, name, seed, algos):
             for i in keep:
                 if base[i] != pert.get(i):
                     fails.append(f"(i) {algo_name}: parameters of {i} changed ({base[i]} -> {pert.get(i)}) when only the data of other "
-                                 f"individuals were replaced (same seed)")
+                                 f"individuals were replaced (values: {pstyle}{'; every value of ' + ids[0] + ', listed first, missing' if budgeted else ''}; same seed)")
+            if list(pert) != list(ids):
+                fails.append(f"individual parameters are keyed {list(pert)} for the cohort {ids} (data of the others replaced"
+                             f"{', the first one without any observed value' if budgeted else ''})")
             if single is not None:
                 for i in keep:
                     if base[i] != single.get(i):
                         fails.append(f"(i) {algo_name}: parameters of {i} changed ({base[i]} -> {single.get(i)}) when the other individuals "
                                      f"(listed before it) were reduced to a single visit (same seed)")
+            if blank is not None:
+                chk.tag("blank_subject", "compared")
+                if list(blank) != list(ids):
+                    fails.append(f"individual parameters are keyed {list(blank)} for the cohort {ids} whose first subject has no observed value")
+                for i in keep:
+                    if base[i] != blank.get(i):
+                        fails.append(f"(i) {algo_name}: parameters of {i} changed ({base[i]} -> {blank.get(i)}) when every value of the "
+                                     f"subject {ids[0]} listed before it went missing (same visits, same seed)")
             if any(base[i] != pert.get(i) for i in ids if i not in keep) is False:
                 chk.tag("degenerate", "perturbation-without-effect-on-others")
+            for (who, got, ref, mism, on_pert) in alone:
+                chk.tag("alone_scipy", "compared")
+                if mism:
+                    fails.append(f"(ii) {algo_name}: {who} alone: draws are not position-indexed like in the cohort run: {mism[0]}")
+                elif got != ref:
+                    fails.append(f"(ii) {algo_name}: parameters of {who} personalised alone (identifier {who}~a, the draws of its position) {got} "
+                                 f"differ from its parameters inside the cohort {ids} {ref}"
+                                 f"{' (data of the others replaced, values: ' + pstyle + ')' if on_pert else ''}")
             for i in ids:
                 if algo_name != "scipy_minimize" and permd.get(i) is not None and set(permd[i]) == set(base[i]):
                     # batched chains: per-individual nll terms depend on the position in the batch in their last bits
@@ -627,7 +798,10 @@ def case_personalize(chk, env, name, seed, algos):
         for f in fails[:3]:
             chk.impl_failure(case, f)
         chk.case(("p", name, seed, algo_name, json.dumps(kw, sort_keys=True)), nontrivial=True, sample=case if len(chk.samples) < 4 else None,
-                 tags={"kind": "personalize", "algo": algo_name, "model": name, "outcome": "ok" if not fails else "fail"})
+                 tags={"kind": "personalize", "algo": algo_name, "model": name, "outcome": "ok" if not fails else "fail",
+                       "relabelled": relabel, "others_values": pstyle, "model_reused": shared is not None, "cohort": n})
+        for c_ in conts:
+            chk.tag("personalize_container", c_)
 
 
 def case_long_adapt(chk, env, name, seed, n_iter=1200):
@@ -659,8 +833,8 @@ def case_long_adapt(chk, env, name, seed, n_iter=1200):
     chk.case(("long", name, seed), nontrivial=True, tags={"kind": "personalize-long", "model": name, "outcome": "ok" if ok else "fail"})
 
 
-def case_njobs(chk, env, name, seed, hash_seeds):
-    """(iv) scipy_minimize: n_jobs=1 (this interpreter) vs n_jobs=2 on fresh loky workers started with another PYTHONHASHSEED."""
+def case_njobs(chk, env, name, seed, hash_seeds, n_jobs_list=(2, 3, 5)):
+    """(iv) scipy_minimize: n_jobs=1 (this interpreter) vs n_jobs=2, 3, 5 on fresh loky workers started with another PYTHONHASHSEED."""
     rng = random.Random(f"C07:nj:{name}:{seed}")
     df = base_frame(env, name)
     all_ids = list(dict.fromkeys(df["ID"]))
@@ -677,14 +851,16 @@ def case_njobs(chk, env, name, seed, hash_seeds):
     from joblib.externals.loky import get_reusable_executor
     old = os.environ.get("PYTHONHASHSEED")
     try:
-        for hs in hash_seeds:
-            case = dict(case0, worker_hashseed=hs)
+        for k_, hs in enumerate(hash_seeds):
+            # 2 workers, then 3 (a number that does not divide the cohort), then 5 (more workers than individuals)
+            nj = n_jobs_list[k_ % len(n_jobs_list)]
+            case = dict(case0, worker_hashseed=hs, n_jobs=nj)
             get_reusable_executor(kill_workers=True).shutdown(wait=True)
             os.environ["PYTHONHASHSEED"] = str(hs)
             try:
-                got, _ = personalize(env, name, df, ids, "scipy_minimize", seed, n_jobs=2, **budget)
+                got, _ = personalize(env, name, df, ids, "scipy_minimize", seed, n_jobs=nj, container=rng.choice(CONTAINERS), **budget)
             except Exception as e:  # noqa
-                chk.impl_failure(case, f"personalize n_jobs=2 failed: {s3.err_class(env, e)}: {str(e)[:200]}")
+                chk.impl_failure(case, f"personalize n_jobs={nj} failed: {s3.err_class(env, e)}: {str(e)[:200]}")
                 continue
             ok = (got == ref) and list(got) == list(ref)
             if not ok:
@@ -692,9 +868,9 @@ def case_njobs(chk, env, name, seed, hash_seeds):
                 rel = max_rel_diff(ref, got) if aligned else float("inf")
                 # F07a region: same ids and keys, differences at the level of optimiser-amplified rounding noise
                 fid = F07A if (aligned and rel <= 1e-2) else None
-                chk.impl_failure(case, f"(iv) scipy_minimize n_jobs=2 (workers with PYTHONHASHSEED={hs}) != n_jobs=1: max relative difference "
+                chk.impl_failure(case, f"(iv) scipy_minimize n_jobs={nj} (workers with PYTHONHASHSEED={hs}) != n_jobs=1: max relative difference "
                                        f"{rel:.3g}; e.g. {ids[0]}: {ref[ids[0]]} vs {got.get(ids[0])}", finding=fid)
-            chk.case(("nj", name, seed, hs), nontrivial=True, tags={"kind": "n_jobs", "model": name, "outcome": "ok" if ok else "differs"})
+            chk.case(("nj", name, seed, hs, nj), nontrivial=True, tags={"kind": "n_jobs", "model": name, "n_jobs": nj, "outcome": "ok" if ok else "differs"})
         listed = [f for f in chk.findings if f.get("id") == F07A and f.get("status") == "finding"]
         if listed and not any(f.get("finding") == F07A for f in chk.impl_failures):
             chk.note(f"finding {F07A} no longer reproduces (n_jobs=1 and n_jobs=2 agree for worker hash seeds {list(hash_seeds)})")
@@ -1543,14 +1719,17 @@ def run(chk: core.Check):
     chk.rule = ("recorded programs: for every model kind the individual-level State variables and one sampler step are recorded on cohorts "
                 "of 3, 5 (with missing values) and 48 individuals, analysed and evaluated in Lean; metamorphic cases on fitted models with cohorts of 3-5 individuals drawn from the test data: terms + one step of every "
                 "individual sampler (base / others' data replaced / re-ordered / alone, same recorded draws by position), personalisation "
-                "with scipy_minimize, mode_posterior, mean_posterior (base / others replaced / re-ordered), scipy_minimize n_jobs 1 vs 2 on "
-                "fresh workers. A case is non-trivial when it compares at least one per-individual output; distinct by (kind, model, seed[, algo]).")
+                "with scipy_minimize, mode_posterior, mean_posterior (base / others replaced / re-ordered; scipy_minimize also alone under another "
+                "identifier), scipy_minimize n_jobs 1 vs 2, 3, 5 on fresh workers. Widened ranges: cohorts of 2-5, others' values ordinary / far out "
+                "of range / going missing, others' latent values and proposal std replaced too, latent values up to (15-20 years, 2.5, 3) away, "
+                "mixture model, identifiers relabelled ('2','10','A','a',...), Data / Dataset / DataFrame / AlgorithmSettings entry, model object "
+                "reused across calls. A case is non-trivial when it compares at least one per-individual output; distinct by (kind, model, seed[, algo]).")
     lines, expect = [], []
     rng = chk.rng
     quick = chk.tier == "quick"
     for c in core.load_corpus(PROP):
         replay_case(chk, env, c, lines, expect)
-    for name in [n for n in s3.MODELS if "/" not in n]:   # (C03's mixture entry is C03's business)
+    for name in s3.MODELS:   # every model kind, the hard-coded mixture included
         for _ in range(2 if quick else 6):
             case_terms_and_sampler(chk, env, name, rng.randrange(1, 10 ** 6), lines, expect)
     case_synthetic(chk, env, lines, expect)
@@ -1560,7 +1739,7 @@ def run(chk: core.Check):
     pm = list(P_MODELS)
     rng.shuffle(pm)
     for name in (pm[:3] if quick else pm):
-        case_personalize(chk, env, name, rng.randrange(1, 10 ** 6), ALGOS)
+        case_personalize(chk, env, name, rng.randrange(1, 10 ** 6), ALGOS, full=not quick)
     for name in (["logistic_diag_noise"] if quick else ["logistic_diag_noise", "linear_diag_noise", "shared_speed_logistic_diag_noise",
                                                         "univariate_logistic"]):
         case_long_adapt(chk, env, name, rng.randrange(1, 10 ** 6))
@@ -1583,7 +1762,7 @@ def replay_case(chk, env, case, lines, expect):
     elif k == "personalize":
         case_personalize(chk, env, case["model"], case["seed"], [(case["algo"], case["kw"])])
     elif k == "n_jobs":
-        case_njobs(chk, env, case["model"], case["seed"], [case.get("worker_hashseed", 1)])
+        case_njobs(chk, env, case["model"], case["seed"], [case.get("worker_hashseed", 1)], n_jobs_list=(case.get("n_jobs", 2),))
     elif k == "personalize-long":
         case_long_adapt(chk, env, case["model"], case["seed"], case.get("n_iter", 1200))
     elif k == "trace":
